@@ -108,15 +108,38 @@ theorem matrix_all (ty : String) (ps : List String) (hne : ps ≠ []) :
 
 /-! ### purposes -/
 
-/-- purposes, if present, are non-empty, at most five *entries*, and all known -/
+/-- purposes, if present, are a non-empty list of at most five *entries*, every one of them a
+    string that names a known purpose -/
 theorem purposesOK_iff (pk : Json) :
     purposesOK pk = true ↔
-      ((hasMember pk "purposes" = true → purposes pk ≠ []) ∧ (purposes pk).length ≤ 5 ∧
-       ∀ p ∈ purposes pk, p ∈ Expected.allowedPurposes) := by
+      ((hasMember pk "purposes" = true → purposes pk ≠ []) ∧
+       (∀ xs, pk.get? "purposes" = some (.arr xs) → ∀ x ∈ xs, ∃ s, x = .str s) ∧
+       (purposes pk).length ≤ 5 ∧ ∀ p ∈ purposes pk, p ∈ Expected.allowedPurposes) := by
   simp only [purposesOK, Bool.and_eq_true, Bool.not_eq_true', List.all_eq_true, List.contains_iff_mem]
   have e : Expected.allowedPurposes.length = 5 := rfl
   rw [e]
-  cases hm : hasMember pk "purposes" <;> cases hp : purposes pk <;> simp [Nat.not_lt]
+  have hstr : purposesAllStrings pk = true ↔
+      ∀ xs, pk.get? "purposes" = some (.arr xs) → ∀ x ∈ xs, ∃ s, x = .str s := by
+    unfold purposesAllStrings
+    cases hg : pk.get? "purposes" with
+    | none => simp
+    | some v =>
+      cases v with
+      | arr xs =>
+        simp only [allStrings, List.all_eq_true, Option.some.injEq, Json.arr.injEq]
+        constructor
+        · intro h ys e x hx
+          subst e
+          have := h x hx
+          cases x <;> simp [Json.str?] at this ⊢
+        · intro h x hx
+          obtain ⟨s, rfl⟩ := h xs rfl x hx
+          simp [Json.str?]
+      | _ => simp
+  rw [hstr]
+  generalize (∀ xs, pk.get? "purposes" = some (.arr xs) → ∀ x ∈ xs, ∃ s, x = .str s) = P
+  cases hm : hasMember pk "purposes" <;> cases hp : purposes pk <;> simp [Nat.not_lt] <;>
+    (constructor <;> intro h <;> simp_all)
 
 /-! ### services -/
 
@@ -219,23 +242,48 @@ theorem keyMaterialOK_iff (pk : Json) :
 
 /-! ### whole patches -/
 
-/-- remove lists are non-empty and every id in them is valid -/
+/-- remove lists are non-empty and every entry of them is a valid id (a string, that is) -/
 theorem validate_remove (orc : UriOracle) (p : Json) (action : String) (value : Json)
     (ha : getAction p = some action) (hv : getValue p = some value)
     (hr : action = "remove-public-keys" ∨ action = "remove-services") :
-    validate orc p = .ok ↔ (requiredArray (some value) = true ∧ ∀ id ∈ stringArray (some value), validID id = true) := by
+    validate orc p = .ok ↔ (requiredArray (some value) = true ∧ allStrings value = true ∧
+      ∀ id ∈ stringArray (some value), validID id = true) := by
   unfold validate
   rcases hr with rfl | rfl <;> simp [ha, hv, ofBool, List.all_eq_true] <;>
     (constructor <;> intro h <;> simp_all)
 
-/-- a replace document has only `publicKeys` and `services` members, each valid by the same rules -/
+/-- … so a list that passes consists of valid ids and of nothing else -/
+theorem allStrings_iff (xs : List Json) : allStrings (.arr xs) = true ↔ ∀ x ∈ xs, ∃ s, x = .str s := by
+  simp only [allStrings, List.all_eq_true]
+  constructor
+  · intro h x hx
+    have := h x hx
+    cases x <;> simp [Json.str?] at this ⊢
+  · intro h x hx
+    obtain ⟨s, rfl⟩ := h x hx
+    simp [Json.str?]
+
+theorem allObjects_iff (xs : List Json) : allObjects (.arr xs) = true ↔ ∀ x ∈ xs, ∃ kvs, x = .obj kvs := by
+  simp only [allObjects, List.all_eq_true]
+  constructor
+  · intro h x hx
+    have := h x hx
+    cases x <;> simp [isObjB] at this ⊢
+  · intro h x hx
+    obtain ⟨kvs, rfl⟩ := h x hx
+    rfl
+
+/-- a replace document has only `publicKeys` and `services` members, each of them (when there and
+    not `null`) a list of objects that is valid by the same rules -/
 theorem validate_replace (orc : UriOracle) (p : Json) (kvs : List (String × Json))
     (ha : getAction p = some "replace") (hv : getValue p = some (.obj kvs)) :
     validate orc p = .ok ↔
       ((∀ k ∈ kvs.map (·.1), k = "services" ∨ k = "publicKeys") ∧
+       replaceMemberOK ((Json.obj kvs).get? "publicKeys") = true ∧ replaceMemberOK ((Json.obj kvs).get? "services") = true ∧
        publicKeysOK (objectEntries ((Json.obj kvs).get? "publicKeys")) = true ∧
        servicesOK orc (objectEntries ((Json.obj kvs).get? "services")) = true) := by
   have hv' : validate orc p = ofBool ((kvs.map (·.1)).all Expected.replaceAllowedMembers.contains &&
+          replaceMemberOK ((Json.obj kvs).get? "publicKeys") && replaceMemberOK ((Json.obj kvs).get? "services") &&
           publicKeysOK (objectEntries ((Json.obj kvs).get? "publicKeys")) &&
           servicesOK orc (objectEntries ((Json.obj kvs).get? "services"))) := by
     unfold validate
@@ -247,8 +295,21 @@ theorem validate_replace (orc : UriOracle) (p : Json) (kvs : List (String × Jso
   rw [hv', ← hall]
   generalize publicKeysOK _ = a
   generalize servicesOK orc _ = b
+  generalize replaceMemberOK ((Json.obj kvs).get? "publicKeys") = d
+  generalize replaceMemberOK ((Json.obj kvs).get? "services") = e
   generalize (kvs.map (·.1)).all Expected.replaceAllowedMembers.contains = c
-  cases c <;> cases a <;> cases b <;> simp [ofBool]
+  cases c <;> cases a <;> cases b <;> cases d <;> cases e <;> simp [ofBool]
+
+/-- what `replaceMemberOK` says: the member is absent, `null`, or a list whose entries are all objects -/
+theorem replaceMemberOK_iff (m : Option Json) :
+    replaceMemberOK m = true ↔ (m = none ∨ m = some .null ∨ ∃ xs, m = some (.arr xs) ∧ ∀ x ∈ xs, ∃ kvs, x = .obj kvs) := by
+  cases m with
+  | none => simp [replaceMemberOK]
+  | some v =>
+    cases v with
+    | arr xs => simp [replaceMemberOK, allObjects_iff]
+    | null => simp [replaceMemberOK]
+    | _ => simp [replaceMemberOK, allObjects]
 
 /-- a patch without a supported action or without that action's value member is refused -/
 theorem validate_needs_action_and_value (orc : UriOracle) (p : Json)
